@@ -72,6 +72,9 @@ size_t cqv_needed;     /* flush_block: the encoder's packed_bytes_needed */
                               ((n) > 2 ? DELTA_ENC_PAY((bw)[2]) : (size_t)0) + ((n) > 3 ? DELTA_ENC_PAY((bw)[3]) : (size_t)0))
 /* facts about the already chosen width j (j < n): at most 64, mirrored in the ghost, and non-zero only for a mini-block that has values */
 #define DELTA_ENC_WOK(bw, gw, j, n, count) ((n) <= (j) || ((bw)[j] <= 64 && (gw)[j] == (bw)[j] && ((bw)[j] == 0 || ((j) << 5) < (count))))
+/* proof cut: the condition is first PROVED at this point (counted obligation), then made available as a single fact to the
+ * obligations that follow; it adds no assumption that is not discharged right here. */
+#define CQV_CUT(c, msg) { __CPROVER_assert((c), msg); __CPROVER_assume(c); }
 /* x * m for 5 <= m <= 8 (bytes per value of a width 33..64), as shifts and adds */
 #define DELTA_MUL58(x, m) ((m) == 5 ? (((size_t)(x)) << 2) + ((size_t)(x)) : (m) == 6 ? (((size_t)(x)) << 2) + (((size_t)(x)) << 1) : \
                            (m) == 7 ? (((size_t)(x)) << 3) - ((size_t)(x)) : (((size_t)(x)) << 3))
